@@ -147,7 +147,6 @@ HARNESS h_a64mem_bx_post_lsl0_o0() { a64_mem_case<kBaseReg, XI, kPost, ShiftOp::
 HARNESS h_a64mem_bx_pre_lsl0_o0() { a64_mem_case<kBaseReg, XI, kPre, ShiftOp::kLSL, 0, 0, 12, 4>(); }
 HARNESS h_a64mem_l_fix_none_o0() { a64_mem_case<kBaseLabel, NOIDX, kFixed, ShiftOp::kLSL, 0, 0, 12, 4>(); }
 HARNESS h_a64mem_l_fix_none_o2() { a64_mem_case<kBaseLabel, NOIDX, kFixed, ShiftOp::kLSL, 0, 2, 12, 4>(); }
-HARNESS h_a64mem_bx_fix_lsl_o3() { a64_mem_case<kBaseReg, XI, kFixed, ShiftOp::kLSL, 1, 3, 12, 4>(); }
 // known finding C20A: an extend with amount 0 is not shown at all
 HARNESS h_a64mem_bw_fix_sxtw0_kf_C20A() { a64_mem_case<kBaseReg, WI, kFixed, ShiftOp::kSXTW, 2, 0, 12, 4>(); }
 HARNESS h_a64mem_bw_fix_uxtw0_kf_C20A() { a64_mem_case<kBaseReg, WI, kFixed, ShiftOp::kUXTW, 2, 0, 12, 4>(); }
